@@ -256,7 +256,7 @@ func (e *Exec) trySpeculate(fr *frame, ins *ssa.If, c *Term) (ok bool) {
 			if res == nil {
 				e.abortSpec("phi without incoming edge")
 			}
-			fr.env[phi] = res
+			fr.env[fr.idx[phi]] = res
 		}
 	}
 	for i := len(orderRev) - 1; i >= 0; i-- {
